@@ -24,7 +24,7 @@ ASSUMPTIONS = ["packet model of DESIGN section 3", "IOS reader / NX-OS reader (s
                "known finding K02 (multi-operand neq is split per operand, pinned by the repository's "
                "own tests) is matched by its exact wrong result only"]
 REQUIRED = ["split_done", "no_split_needed", "site_Ace", "site_AceGroup", "site_Acl_flat",
-            "site_Acl_grouped", "site_platform_nxos", "site_Acl_mixed_head", "site_Acl_mixed_tail"]
+            "site_Acl_grouped", "site_platform_nxos", "site_Acl_mixed_head", "site_Acl_mixed_tail", "numbered_lines"]
 KF_NEQ = "C19:ungroup_ports:multi_operand_neq_split_per_operand"
 SITES = ("Ace", "AceGroup", "Acl_flat", "Acl_grouped", "Acl_mixed_head", "Acl_mixed_tail",
          "platform_nxos")
@@ -110,8 +110,13 @@ def run_unit(unit, ctx):
     for cl in lists:
         for pos in range(len(cl) + 1):
             its = [cx[i] for i in cl[:pos]] + [item] + [cx[i] for i in cl[pos:]]
-            check(its, unit["site"], ctx, dict(s=unit["s"], d=unit["d"], ctx=list(cl), pos=pos,
-                                               grouped=unit.get("grouped", False)))
+            # sequence-numbered lines (dense numbering 10, 11, ...): quick alternates, thorough both
+            modes = (False, True) if ctx.tier == "thorough" else (bool((unit["s"] + len(cl)) % 2),)
+            for numbered in modes:
+                if numbered and unit["site"].startswith("Acl_mixed"):
+                    continue
+                check(its, unit["site"], ctx, dict(s=unit["s"], d=unit["d"], ctx=list(cl), pos=pos,
+                                                   grouped=unit.get("grouped", False), numbered=numbered))
 
 
 def replay(case, ctx):
@@ -124,7 +129,8 @@ def replay(case, ctx):
     cl, pos = case["ctx"], case["pos"]
     its = [cx[i] for i in cl[:pos]] + [item] + [cx[i] for i in cl[pos:]]
     check(its, case["site"], ctx, dict(s=case["s"], d=case["d"], ctx=cl, pos=pos,
-                                       grouped=case.get("grouped", False)))
+                                       grouped=case.get("grouped", False),
+                                       numbered=case.get("numbered", False)))
 
 
 # ------------------------------------------------------------------------------------------------
@@ -294,6 +300,14 @@ def check(its, site, ctx, where):
             for side, adr in (("srcaddr", it.acex.src), ("dstaddr", it.acex.dst)):
                 if adr.group:
                     getattr(ace, side).items = [m.spellings("ios")[0][0] for m in adr.members]
+    numbered = bool(where.get("numbered"))
+    if numbered:
+        try:
+            obj.resequence(10, 1)
+        except Exception as ex:  # noqa
+            ctx.viol("harness:resequence", case, repr(ex), "numbered")
+            return
+        ctx.out("numbered_lines")
     ids_before = {}
     for o in _flat(obj):
         ids_before.setdefault(o.line, []).append(o.uuid)
@@ -314,14 +328,20 @@ def check(its, site, ctx, where):
     k = 0
     split_any = False
     orig_rules, new_rules = [], []
-    for it in its:
+    from dataclasses import replace as _replace
+
+    for pos_, it in enumerate(its):
+        want_seq = 10 + pos_ if numbered else 0
         if not it.is_ace:
             if k >= len(got) or not isinstance(got[k], Remark) or got[k].text != it.remark:
                 ctx.viol(f"{site}:remark_moved_or_lost", case, lines, [i.text(platform) for i in its])
                 return
+            if getattr(got[k], "seq", want_seq) != want_seq:
+                ctx.viol(f"{site}:remark_number_changed", case, lines, want_seq)
+                return
             k += 1
             continue
-        rule = it.acex.rule(resolve_groups=False)
+        rule = _replace(it.acex.rule(resolve_groups=False), seq=want_seq)
         orig_rules.append(rule)
         n = 1
         if _needs_split(it.acex):
